@@ -44,7 +44,7 @@ pub fn run(ctx: &mut Ctx, o: &RichOpts) {
             plant_reserved(&mut claims, &mut r);
         }
         let strat = rstrategy(&mut r, &claims, o.bad_paths);
-        let mut issuer = new_issuer(key, alg);
+        let mut issuer = if alg == "ES256" && r.gen_bool(0.5) { new_issuer_default_alg(key) } else { new_issuer(key, alg) };
         let issued = issue(ctx, &mut issuer, &IssueArgs { inst: "I1", key, alg, claims: &claims, strat: &strat, hk: hk.map(|h| h.0), decoy, fmt });
         let Some(issued) = issued.ok() else { continue };
         if o.only_issue {
